@@ -50,9 +50,9 @@ InSnap(v) == Share[v] > 0
 
 \* a message: kind "ref" (no signatures, no estimate) or "slc" (signatures + estimate + fees)
 NewMsg(kind) == [kind |-> kind, ev |-> [v \in Vals |-> None], sigs |-> {}, ests |-> [v \in Vals |-> None],
-                 elected |-> 0, fees |-> FALSE, pad |-> kind = "ref", err |-> FALSE, added |-> height]
+                 elected |-> 0, fees |-> FALSE, pad |-> kind = "ref", err |-> FALSE, added |-> height, asg |-> 0]
 \* version of the bytes to sign: changes when the elected estimate or the attached fees change
-Version(m) == <<m.elected, m.fees>>
+Version(m) == <<m.elected, m.fees, m.asg>>      \* asg: number of (re)assignments of the relayer
 
 Init == /\ msgs = <<>> /\ nextId = 1 /\ keyver = [v \in Vals |-> 1] /\ refHeight = 0 /\ jailed = {}
         /\ height = 1 /\ res = "init" /\ removedBy = <<>> /\ applied = <<>>
@@ -99,6 +99,14 @@ SetErr(v, id) ==
 ReRegister(v) ==
   /\ keyver' = [keyver EXCEPT ![v] = @ + 1] /\ res' = "ok"
   /\ UNCHANGED <<msgs, nextId, refHeight, jailed, height, removedBy, applied>>
+
+\* ReassignOrphanedMessages: every turnstone message without delivery report gets a (possibly new) relayer;
+\* the relayer is covered by the signing bytes, so collected signatures are discarded. Elected estimate, fees and
+\* submitted estimates stay. (No caller in the application today; kept in the model because the keeper exports it.)
+Reassign ==
+  /\ msgs' = [id \in DOMAIN msgs |-> IF msgs[id].kind = "slc" /\ ~msgs[id].pad /\ ~msgs[id].err
+                                      THEN [msgs[id] EXCEPT !.asg = @ + 1, !.sigs = {}] ELSE msgs[id]]
+  /\ res' = "ok" /\ Same
 
 Advance(dh) == /\ height' = height + dh /\ res' = "adv"
                /\ UNCHANGED <<msgs, nextId, keyver, refHeight, jailed, removedBy, applied>>
@@ -173,6 +181,7 @@ Next == \/ (nextId <= MaxMsgs /\ \E k \in {"ref", "slc"} : Put(k))
         \/ \E v \in Vals, id \in 1..MaxMsgs, e \in EvValues : Evidence(v, id, e)
         \/ \E v \in Vals, id \in 1..MaxMsgs : SetPAD(v, id) \/ SetErr(v, id)
         \/ \E v \in Vals : ReRegister(v)
+        \/ Reassign
         \/ EndBlock
         \/ \E dh \in {1, 49, 301} : Advance(dh)
 Spec == Init /\ [][Next]_vars
